@@ -142,7 +142,7 @@ fn feedback_families_x(th: bool, last_pos: &[Op], oracles: Vec<Oracle>, full: bo
         }
       }
     }
-    let has_fn = |o: &Op| matches!(o, Op::Map(_) | Op::Filter(_) | Op::Tap | Op::Scan | Op::SkipWhile(_) | Op::TakeWhile(_) | Op::All(_) | Op::Reduce | Op::DematInBand(..) | Op::GroupByParity | Op::GroupByParityFlat | Op::GroupByParityDeferred | Op::RetryWhen(_) | Op::OnErrorResumeNext(_) | Op::FlatMap(_));
+    let has_fn = |o: &Op| matches!(o, Op::Map(_) | Op::Filter(_) | Op::Tap | Op::Scan | Op::SkipWhile(_) | Op::TakeWhile(_) | Op::All(_) | Op::Reduce | Op::DematInBand(..) | Op::GroupByParity | Op::GroupByParityFlat | Op::GroupByParityFlatResume | Op::GroupByParityDeferred | Op::RetryWhen(_) | Op::OnErrorResumeNext(_) | Op::FlatMap(_));
     let fn_ops: Vec<Op> = last_pos.iter().filter(|o| has_fn(o)).cloned().collect();
     let red_fn: Vec<Op> = reduced_ops().into_iter().filter(|o| has_fn(o)).collect();
     let mut pf = depth1(&fn_ops);
